@@ -20,14 +20,31 @@ for p in sorted(glob.glob('mutants/*.diff')):
         jobs.append((p, commit_prop[m.group(1)]))
     else:
         print('no property for', b)
-for d in sorted(glob.glob('seeded/C??')):
+for d in sorted(glob.glob('seeded/C??')) + sorted(glob.glob('seeded2/C??')):
     jobs.append((d + '/patch.diff', os.path.basename(d)))
-only = sys.argv[1:] 
-rows = []
-for p, prop in jobs:
-    if only and prop not in only:
-        continue
-    out = subprocess.run(['bin/mutant.sh', p, prop], stdout=subprocess.PIPE, stderr=subprocess.STDOUT).stdout.decode('latin-1')
+only = [a for a in sys.argv[1:] if not a.startswith('-')]
+NW = 4
+# scratch copies of the repository (outside /repo and /verif, removed at the end); /repo itself is not touched
+import concurrent.futures as cf
+import queue
+scratch = queue.Queue()
+made = []
+for k in range(NW):
+    d = '/tmp/verif_mut_%d_%d' % (os.getpid(), k)
+    subprocess.run(['git', '-C', '/repo', 'worktree', 'add', '-q', '--detach', d, 'HEAD'], check=True)
+    made.append(d)
+    scratch.put(d)
+todo = [(p, prop) for p, prop in jobs if not only or prop in only]
+
+
+def one(job):
+    p, prop = job
+    d = scratch.get()
+    try:
+        env = dict(os.environ, VERIF_SCRATCH=d)
+        out = subprocess.run(['bin/mutant.sh', p, prop], stdout=subprocess.PIPE, stderr=subprocess.STDOUT, env=env).stdout.decode('latin-1')
+    finally:
+        scratch.put(d)
     line = [l for l in out.splitlines() if l.startswith(prop + ' ')]
     verdict = 'BROKEN'
     key = ''
@@ -38,8 +55,18 @@ for p, prop in jobs:
                 break
         mk = re.search(r'key=(\S+)', line[-1])
         key = mk.group(1) if mk else ''
-    rows.append((prop, p, verdict, key))
     print(prop, p, verdict, key, flush=True)
+    return (prop, p, verdict, key)
+
+
+try:
+    with cf.ThreadPoolExecutor(NW) as ex:
+        rows = list(ex.map(one, todo))
+finally:
+    for d in made:
+        subprocess.run(['git', '-C', '/repo', 'worktree', 'remove', '--force', d])
+    subprocess.run(['git', '-C', '/repo', 'worktree', 'prune'])
+rows.sort()
 with open('mutants/RESULTS.tsv' if not only else 'mutants/RESULTS.partial.tsv', 'w') as f:
     f.write('property\tpatch\tverdict\tfirst violation key\n')
     for r in rows:
